@@ -16,6 +16,9 @@ mod oracle;
 mod replay;
 #[path = "../../harness/src/stubs.rs"]
 mod stubs;
+#[path = "../../memchr-model/src/lib.rs"]
+#[allow(dead_code)]
+mod memchr_model;
 
 use aho_corasick::{
     automaton::Automaton,
@@ -823,19 +826,19 @@ fn stubcheck() -> i32 {
         // small alphabet so that needles are actually found
         let hay: Vec<u8> = (0..len).map(|_| (rnd() % 5) as u8 + b'a').collect();
         let (a, b, c) = ((rnd() % 6) as u8 + b'a', (rnd() % 6) as u8 + b'a', (rnd() % 6) as u8 + b'a');
-        if stubs::memchr1(a, &hay) != memchr::memchr(a, &hay) {
+        if memchr_model::memchr(a, &hay) != memchr::memchr(a, &hay) || stubs::memchr1(a, &hay) != memchr::memchr(a, &hay) {
             bad += 1;
         }
-        if stubs::memchr2(a, b, &hay) != memchr::memchr2(a, b, &hay) {
+        if memchr_model::memchr2(a, b, &hay) != memchr::memchr2(a, b, &hay) {
             bad += 1;
         }
-        if stubs::memchr3(a, b, c, &hay) != memchr::memchr3(a, b, c, &hay) {
+        if memchr_model::memchr3(a, b, c, &hay) != memchr::memchr3(a, b, c, &hay) {
             bad += 1;
         }
         let nlen = (rnd() % 4) as usize;
         let needle: Vec<u8> = (0..nlen).map(|_| (rnd() % 3) as u8 + b'a').collect();
         let f = memchr::memmem::Finder::new(&needle);
-        if stubs::memmem_find(&f, &hay) != f.find(&hay) {
+        if memchr_model::memmem::Finder::new(&needle).find(&hay) != f.find(&hay) {
             bad += 1;
         }
         #[cfg(target_arch = "x86_64")]
